@@ -43,9 +43,15 @@ def handle (op : String) (args : Json) : Dec Json := do
   | "split" =>
     let g ← decReg args
     let r ← decRegion (← field args "region")
-    let thr ← intF args "thr"
-    let mcw ← intF args "mcw"
-    return answer (jList jCol) (splitRegion thr mcw g r)
+    -- `null` / absent: the argument is not passed to the real function, the regenerated default applies
+    let optInt (k : String) : Dec (Option Int) :=
+      match fieldOpt args k with
+      | none => pure none
+      | some .null => pure none
+      | some j => some <$> asInt j
+    let thr ← optInt "thr"
+    let mcw ← optInt "mcw"
+    return answer (jList jCol) (splitRegionDefaults thr mcw g r)
   | "gaps" =>
     let r ← decRegion (← field args "region")
     let thr ← intF args "thr"
